@@ -48,3 +48,63 @@ def offlineStages (g : SG) (nodes : List Nat) : List (List Nat) × PassSt :=
 def topoLB (g : SG) : List Nat → List Nat → Bool
   | _, [] => true
   | inc, u :: us => (g.parents u).all (fun p => inc.contains p) && topoLB g (u :: inc) us
+
+/-! ### how the staged fit routes data across the edges it cuts (`_get_required_nodes`,
+`dist_states_to_next_subgraph`, `run_and_partial_fit`, `DataDispatcher.load`)
+
+Every stage runs a sub-model made of its forward nodes and of the edges between them. What a forward node of the stage
+needs from a node that is NOT run in this stage travels as external data, keyed by the consumer's name only: the
+relations of the previous stage name, for each of its nodes that is not a node of this stage, its consumers among the
+nodes of this stage; one array per consumer is kept, and the dispatcher appends it AFTER the consumer's internal
+predecessors. `parents` lists the predecessors of a node in operand order (the order in which the full model
+concatenates them). -/
+
+/-- per stage: the nodes trained in it and the nodes run forward in it (an offline node is trained the first time it
+    appears in a stage and run forward the second time) -/
+def splitStages (g : SG) : List (List Nat) → List Nat → List (List Nat × List Nat)
+  | [], _ => []
+  | sub :: rest, seen =>
+    let tr := sub.filter (fun v => g.offline v && !seen.contains v)
+    let fw := sub.filter (fun v => !(g.offline v && !seen.contains v))
+    (tr, fw) :: splitStages g rest (tr ++ seen)
+
+/-- what a forward node `c` of a stage receives, as the list of the predecessors whose outputs arrive, in arrival order;
+    `none`: several senders of the previous stage write to the one slot of `c` -/
+def delivered (g : SG) (prevSub curSub fw : List Nat) (c : Nat) : Option (List Nat) :=
+  let internal := (g.parents c).filter (fun p => fw.contains p)
+  let ext := (g.parents c).filter (fun p => prevSub.contains p && !curSub.contains p)
+  match ext with
+  | [] => some internal
+  | [p] => some (internal ++ [p])
+  | _ => none
+
+inductive RouteFault
+  | order (c : Nat)        -- the operands of c arrive, but not in operand order
+  | missing (c : Nat)      -- an operand of c was run two or more stages earlier: never forwarded
+  | overwrite (c : Nat)    -- two or more operands of c come from the previous stage
+  | noTrainData (v : Nat)  -- v is trained in a stage that is not the last one and is not a node of the next stage
+  deriving Repr, DecidableEq
+
+/-- the routing faults of one stage; `prev`, `cur`, `next` are the node lists (`sub`) of the neighbouring stages -/
+def stageFaults (g : SG) (prevSub curSub : List Nat) (nextSub : Option (List Nat)) (tr fw : List Nat) : List RouteFault :=
+  (fw.filterMap fun c =>
+      match delivered g prevSub curSub fw c with
+      | none => some (.overwrite c)
+      | some l =>
+        if l = g.parents c then none
+        else if l.length < (g.parents c).length then some (.missing c) else some (.order c))
+  ++ (tr.filterMap fun v =>
+      match nextSub with
+      | none => none
+      | some nx => if nx.contains v then none else some (.noTrainData v))
+
+def routeFaultsAux (g : SG) : List Nat → List (List Nat × List Nat) → List RouteFault
+  | _, [] => []
+  | prevSub, (tr, fw) :: rest =>
+    let curSub := tr ++ fw
+    let nextSub := match rest with | [] => none | (tr', fw') :: _ => some (tr' ++ fw')
+    stageFaults g prevSub curSub nextSub tr fw ++ routeFaultsAux g curSub rest
+
+/-- all routing faults of the staged fit of a model -/
+def routeFaults (g : SG) (nodes : List Nat) : List RouteFault :=
+  routeFaultsAux g [] (splitStages g (offlineStages g nodes).1 [])
